@@ -83,3 +83,29 @@ pub open spec fn enum_declared(h: HirEnumDef, d: Option<EnumDef>) -> bool {
     d matches Some(e) && e.name.0@ == h.name.text() && names_of(h.generics@, e.generics@) && e.variants@.len() == h.variants@.len()
     && forall|i: int| 0 <= i < h.variants@.len() ==> (#[trigger] e.variants@[i]).0.0@ == h.variants@[i].0.text() && tys_of(h.variants@[i].1@, e.variants@[i].1@)
 }
+// ---- define_trait (the method signatures trait calls and impls are checked against) ----
+pub struct HirTraitMethodSignature { pub name: HirIdent, pub params: Vec<HirTypeExpr>, pub ret_ty: HirTypeExpr }
+pub struct HirTraitDef { pub name: HirIdent, pub method_sigs: Vec<HirTraitMethodSignature> }
+#[verifier::external_body] pub fn no_tparams() -> (r: Vec<TastIdent>) ensures r@.len() == 0 { unimplemented!() }          // `&[]`
+#[verifier::external_body]
+#[verifier::reject_recursive_types(V)]
+pub struct MethodMap<V> { _v: core::marker::PhantomData<V> }                 // IndexMap<String, V>
+impl<V> MethodMap<V> {
+    pub uninterp spec fn view(&self) -> Map<Seq<char>, V>;
+    #[verifier::external_body] pub fn new() -> (r: Self) ensures r@ == Map::<Seq<char>, V>::empty() { unimplemented!() }
+    #[verifier::external_body] pub fn insert(&mut self, k: String, v: V) -> (r: Option<V>) ensures final(self)@ == old(self)@.insert(k@, v) { unimplemented!() }
+}
+pub struct TraitDefRec { pub methods: MethodMap<FnScheme> }                  // env::TraitDef
+impl PackageTypeEnv { pub uninterp spec fn trait_def(&self, name: Seq<char>) -> Option<TraitDefRec>; }
+#[verifier::external_body] pub fn insert_trait(env: &mut PackageTypeEnv, name: String, def: TraitDefRec) ensures final(env).trait_def(name@) == Some(def) { unimplemented!() }
+pub open spec fn sig_scheme(sg: HirTraitMethodSignature, sc: FnScheme) -> bool {
+    sc.ty matches Ty::TFunc { params, ret_ty } && tys_of(sg.params@, params@) && *ret_ty == hir_ty(sg.ret_ty)
+}
+// signature i is the LAST one of its name (a later one of the same name replaces it in the table)
+pub open spec fn last_of_name(sigs: Seq<HirTraitMethodSignature>, n: int, i: int) -> bool { forall|j: int| i < j < n ==> (#[trigger] sigs[j]).name.text() != sigs[i].name.text() }
+pub open spec fn methods_upto(sigs: Seq<HirTraitMethodSignature>, n: int, m: Map<Seq<char>, FnScheme>) -> bool {
+    forall|i: int| 0 <= i < n && last_of_name(sigs, n, i) ==> m.contains_key((#[trigger] sigs[i]).name.text()) && sig_scheme(sigs[i], m[sigs[i].name.text()])
+}
+pub open spec fn trait_declared(h: HirTraitDef, d: Option<TraitDefRec>) -> bool {
+    d matches Some(t) && methods_upto(h.method_sigs@, h.method_sigs@.len() as int, t.methods@)
+}
